@@ -727,6 +727,28 @@ def fam_wlpark(rnd, i):
     return steps
 
 
+def fam_dselfskip(rnd, i):
+    """The end of a file's own watch while a directory that looks like its parent is watched too: the Remove may be left to
+    that directory's watch only if it really reports one.  Three histories in which it does not: the directory was added
+    after the unlink (descriptor held open); the watched path is a symbolic link in the watched directory, the file lives
+    elsewhere; the file is replaced by a rename (the directory reports a move, not a removal)."""
+    w = "w1"
+    steps = [fs("mkdir", ("d1",)), fs("mkdir", ("d2",)), fs("create", ("d1", "n1")), fs("create", ("d1", "n2")), new(w, rnd.choice([0, 0, 4]))]
+    sp = rnd.choice(["rel", "abs"])
+    how = rnd.choice(["late_parent", "via_link", "overwrite"])
+    if how == "late_parent":
+        steps += [call(w, "add", ("d1", "n1"), sp), fs("open", ("d1", "n1"), fd="f1"), fs("unlink", ("d1", "n1")), drain(w),
+                  call(w, "add", ("d1",), sp), fs("closefd", (), fd="f1"), drain(w)]
+    elif how == "via_link":
+        steps += [fs("symlink", ("d2", "l"), tgt={"abs": True, "c": ["d1", "n1"]}), call(w, "add", ("d2", "l"), sp), call(w, "add", ("d2",), sp), drain(w),
+                  fs("unlink", ("d1", "n1")), drain(w)]
+    else:
+        steps += [call(w, "add", ("d1", "n1"), sp), call(w, "add", ("d1",), sp), drain(w), fs("rename", ("d1", "n2"), to=("d1", "n1")), drain(w)]
+    steps += [call(w, "watchlist"), obs(w)]
+    steps += epilogue(w)
+    return steps
+
+
 def fam_moves(rnd, i, depth=30):
     """Rename correlation: moves within / between watched directories, in from and out to
     unwatched places (leaving unmatched cookies behind), plain creates and hard links in between."""
@@ -1507,7 +1529,7 @@ FAMS = {
     "cycle": fam_cycle, "newclose": fam_newclose, "overflow": fam_overflow, "moves": fam_moves, "multi": fam_multi,
     "absorb": fam_absorb, "withops": fam_withops, "repoint": fam_repoint, "stall": fam_stall, "spell": fam_spell,
     "endwatch": fam_endwatch, "paced": fam_paced, "ovfstall": fam_ovfstall, "ovflate": fam_ovflate,
-    "parmoves": fam_parmoves, "multix": fam_multix, "recurse": fam_recurse, "cwd": fam_cwd, "readfault": fam_readfault, "wlpark": fam_wlpark, "recerr": fam_recerr,
+    "parmoves": fam_parmoves, "multix": fam_multix, "recurse": fam_recurse, "cwd": fam_cwd, "readfault": fam_readfault, "dselfskip": fam_dselfskip, "wlpark": fam_wlpark, "recerr": fam_recerr,
     "kqdir": fam_kqdir, "kqsym": fam_kqsym, "kqburst": fam_kqburst, "kqcycle": fam_kqcycle, "kqfault": fam_kqfault, "kqdot": fam_kqdot, "kqseq": fam_kqseq, "kqkfault": fam_kqkfault, "kqnested": fam_kqnested,
 }
 
